@@ -17,10 +17,12 @@ def run(ctx):
     quick = ctx.tier == "quick"
     ctx.build_harness()
     ctx.tlc_must_pass("MC_Decoder", "MC_Decoder_q" if quick else "MC_Decoder_t", timeout=3000)
+    if not quick:
+        ctx.tlc_must_pass("MC_Decoder", "MC_Decoder_full2", timeout=3000)  # every byte value, |w| <= 2
     fams = ["corpus", "corrupt", "random", "alphabet", "adversarial", "splice", "meta"]
-    cov = deccheck.run_decoder_traces(ctx, fams, 3000 if quick else 60000, KINDS,
+    cov = deccheck.run_decoder_traces(ctx, fams, 3000 if quick else 150000, KINDS,
                                       "decoder safety/prefix/outcome mismatch")
-    mc = ctx.mc[-1]
+    mc = dict(distinct=sum(m["distinct"] for m in ctx.mc), generated=sum(m["generated"] for m in ctx.mc))
     coverage = dict(states=mc["distinct"], transitions=mc["generated"],
                     traces_validated_against_impl=cov["inputs"],
                     samples=vlib.sample_lines(cov["files"][0], 3, 900),
